@@ -33,7 +33,8 @@ RULE = ("seeded random operation histories (create / set accepted+rejected value
         "default x DataContainer or CornerDataContainer x separate or shared container), plus bounded-exhaustive enumeration "
         "of all histories up to a fixed length over a reduced alphabet (2 types x arity {1,3} x 3 indices); a history is "
         "non-trivial when the container grows after the attribute was created and a never-written entry is read afterwards; "
-        "distinct = distinct (declaration, operation log) hash")
+        "distinct = distinct (declaration, operation log) hash"
+        "; variants: attributes registered from arrays, create over an existing name, array export as the first thing asked of a new attribute")
 REQUIRED = {"answers": 100000, "answers/as_array": 2000, "lattice/accept": 3000, "lattice/reject": 2000, "lattice/agree": 100,
             "lattice/after_rejected_set": 2000, "lattice/inplace_write_back": 1000, "bounds": 20000, "bounds/get_at_len": 1000,
             "bounds/set_at_len": 1000, "isolation": 10000, "isolation/inplace_on_unset": 1000, "isolation/view_on_unset": 500,
